@@ -117,11 +117,14 @@ def liuEdge (col : Nat) (sc : St × Nat) (row : Nat) : St × Nat :=
        parent := st.parent.setIfInBounds rroot col }, rset)
   else ({ st with pp := pp }, cset)
 
+/-- `cset = make_set(col); root[cset] = col; parent[col] = nc` -/
+def liuInit (nc : Nat) (st : St) (col : Nat) : St :=
+  { pp := st.pp.setIfInBounds col col, root := st.root.setIfInBounds col col,
+    parent := st.parent.setIfInBounds col nc }
+
 /-- one iteration of the column loop -/
 def liuCol (nc : Nat) (nbrs : Nat → List Nat) (st : St) (col : Nat) : St :=
-  let st0 : St := { pp := st.pp.setIfInBounds col col, root := st.root.setIfInBounds col col,
-                    parent := st.parent.setIfInBounds col nc }
-  ((nbrs col).foldl (liuEdge col) (st0, col)).1
+  ((nbrs col).foldl (liuEdge col) (liuInit nc st col, col)).1
 
 /-- Liu's algorithm; `nbrs col` lists the row indices visited for column `col` -/
 def liu (nc : Nat) (nbrs : Nat → List Nat) : Array Nat :=
